@@ -87,7 +87,6 @@ class Model:
         else:
             ops_c, self.lam_centre = [np.eye(d * d) / d], 1.0 / d
         self.centre = refopt.stack_from_ops(t, B, d, m, ops_c)
-        self.diam = {"State": 2.0, "Povm": 2.0 * np.sqrt(d), "Gate": 2.0 * d}[t]
         # reduced (equality built in) coordinates: s = S v + s0 ; used for uniqueness / strong convexity
         nr = refopt.n_var(t, d, m, True)
         s0 = refopt.stack_from_var(t, d, m, np.zeros(nr), True)
@@ -405,7 +404,7 @@ def stop_analysis(ev, eps, h, max_iter):
 # ===================================================================== trace checker
 
 
-def check_trace(ctx, md, loss_obj, fam, opt, res, rng_unused=None):
+def check_trace(ctx, md, loss_obj, fam, opt, res):
     """offline checker over the iteration history returned by ProjectedGradientDescentBacktracking.optimize"""
     mode = opt.mode_stopping_criterion_gradient_descent
     eps = float(opt.eps)
@@ -456,13 +455,10 @@ def check_trace(ctx, md, loss_obj, fam, opt, res, rng_unused=None):
     ctx.truth("trace:alpha-in-unit-interval", bool(np.all((al > 0) & (al <= 1))), key=f"{pre}:alpha-outside-unit-interval", info=info)
     # ---- Armijo with the option's own gamma:  f(x_{k+1}) <= f(x_k) + gamma alpha <y, grad f(x_k)>
     worst_arm = -np.inf
-    gnorm_last = 0.0
     for j in range(K):
         if clip[j] or clip[j + 1]:
             continue
         g = md.A.T @ L.grad_p(ps[j])
-        if j == K - 1:
-            gnorm_last = float(np.linalg.norm(g))
         worst_arm = max(worst_arm, Lr[j + 1] - (Lr[j] + gamma * al[j] * float(ys[j] @ g)))
     if worst_arm == -np.inf:
         ctx.skip("trace:armijo")
@@ -532,7 +528,7 @@ def check_trace(ctx, md, loss_obj, fam, opt, res, rng_unused=None):
               info=dict(info, last_window=W[-1]))
     if limit and not by_crit:
         ctx.count("limit-hit-runs")
-    return {"by_criterion": bool(by_crit), "K": K, "alpha_last": float(al[-1]), "L_start": float(Lr[0]), "gnorm_last": gnorm_last, "mu": mu}
+    return {"by_criterion": bool(by_crit), "K": K, "L_start": float(Lr[0])}
 
 
 # ===================================================================== workload
@@ -604,14 +600,6 @@ def build_problem(tomo, shape, flag, rng):
     return qt, c_sys, B, d, t, m
 
 
-def make_true(t, c_sys, ops, flag):
-    if t == "State":
-        return gen.make_state(c_sys, ops[0], on_para_eq_constraint=flag)
-    if t == "Povm":
-        return gen.make_povm(c_sys, ops, on_para_eq_constraint=flag)
-    return gen.make_gate(c_sys, kraus=ops, on_para_eq_constraint=flag)
-
-
 def loss_classes(fam, fast):
     if fam == "se":
         if fast:
@@ -674,7 +662,7 @@ def run_shard(ctx):
     from quara.protocol.qtomography.standard.projected_linear_estimator import ProjectedLinearEstimator
 
     hs = HookSet(ctx)
-    st = {"ds": None, "rng": None, "qt_stack": [], "models": {}, "runs": [], "cvx": [], "trace": {}, "emp_key": None}
+    st = {"ds": None, "rng": None, "qt_stack": [], "models": {}, "runs": [], "cvx": []}
 
     # ---------------------------------------------------------------- hooks
     def dataset_for(qt, empi_dists):
@@ -718,7 +706,7 @@ def run_shard(ctx):
         if md is None or fam_ is None or getattr(loss_function_option, "mode_weight", None) != "identity":
             ctx.count("optimize-outside-quantifier")
             return
-        st["trace"][id(result)] = (result, check_trace(ctx, md, loss_function, fam_, algorithm_option, result))
+        check_trace(ctx, md, loss_function, fam_, algorithm_option, result)
 
     def post_est(result, snap, self, qtomography, empi_dists_sequence, loss, loss_option, algo, algo_option,
                  is_computation_time_required=False, is_detailed_results_required=False):
@@ -824,7 +812,7 @@ def run_shard(ctx):
         for i in ctx.cases(P["n"]):
             rng = ctx.rng()
             st["rng"] = rng
-            st["runs"], st["cvx"], st["trace"] = [], [], {}
+            st["runs"], st["cvx"] = [], []
             qt, c_sys, B, d, t, m = build_problem(tomo, shape, flag, rng)
             # few shots + boundary truths make the positivity constraints active (that is where constraint bugs show)
             kind = str(rng.choice(["interior", "boundary", "pure"], p=[0.2, 0.3, 0.5] if grp == "few" else [0.34, 0.33, 0.33]))
@@ -858,9 +846,8 @@ def run_shard(ctx):
 
             # ---- backtracking runs: fresh loss / option / algorithm / estimator objects each time
             combos = [(fast, mode) for fast in (False, True) for mode in MODES]
-            order = list(rng.permutation(len(combos)))
             # rotate so that across cases every (variant, mode) is visited
-            picks = [combos[(i * P["runs"] + j) % len(combos)] for j in range(P["runs"])] if P["runs"] < len(combos) else [combos[o] for o in order]
+            picks = [combos[(i * P["runs"] + j) % len(combos)] for j in range(P["runs"])]
             for (fast, mode) in picks:
                 Lc, Oc = loss_classes(fam, fast)
                 eps = EPS_BY_MODE[mode][int(rng.integers(0, 2))]
@@ -880,12 +867,14 @@ def run_shard(ctx):
                 if not ok:
                     ctx.violation(f"pgdb:option:{mode}:" + ctx.exc_key(opt), {"kw": {k: v for k, v in kw.items() if k != 'var_start'}})
                     continue
-                n_before = len(st["runs"])
                 ok, res = ctx.attempt(LossMinimizationEstimator().calc_estimate, qt, fresh(), Lc(), Oc("identity"),
                                       ProjectedGradientDescentBacktracking(), opt, is_computation_time_required=True,
                                       is_detailed_results_required=True)
                 if not ok:
-                    ctx.violation(f"pgdb:{t}:{fam}:{mode}:" + ctx.exc_key(res), {"flag": flag, "loss": Lc.__name__})
+                    # (one key per loss family and raising site: the stopping mode / type do not matter to an exception)
+                    ctx.violation(f"pgdb:{fam}:" + ctx.exc_key(res),
+                                  {"type": t, "flag": flag, "loss": Lc.__name__, "mode": mode, "eps": eps, "gamma": gamma, "mu": mu,
+                                   "random_start": start is not None, "shots": N, "message": str(res)[:200]})
                     continue
                 ctx.count("pgdb-estimates")
             # ---- CVXPY-backed estimator (SCS); supports only the parametrisation with the equality constraint built in
@@ -895,7 +884,7 @@ def run_shard(ctx):
                                                                                                 mode_constraint="physical"))
             if flag:
                 if not ok:
-                    ctx.violation(f"cvxpy-scs:{t}:{fam}:" + ctx.exc_key(res), {"flag": flag})
+                    ctx.violation(f"cvxpy-scs:{fam}:" + ctx.exc_key(res), {"type": t, "flag": flag, "shots": N, "message": str(res)[:200]})
                 else:
                     ctx.count("cvxpy-estimates")
             else:
